@@ -8,6 +8,7 @@ Require Import Cherab.Model.C04_Beam.
 From Coq Require Import Qround Permutation.
 Require Import Cherab.Model.C04_Policy.
 Require Import Cherab.Proofs.C04_Trapz Cherab.Proofs.C04_Main Cherab.Proofs.C04_More Cherab.Proofs.C04_Policy Cherab.Proofs.C04_Main2.
+Require Import Cherab.Model.C04_Float Cherab.Proofs.C04_Float.
 Open Scope Q_scope.
 
 (* the two loops of _beam_stopping compute the documented composite coefficient
@@ -250,9 +251,20 @@ Proof. exact main_facts. Qed.
 Print Assumptions C04_code_facts_are_the_model.
 
 
+(* second deepening round: the double-precision replay of the attenuation loop (Model/C04_Float.v, compared bit for bit
+   with the implementation on every run) stays within (1 -+ 2^-53)^(n+3) of the exact trapezoid sums of the model, for
+   non-negative S on sorted nodes; the rounding is round53, whose relative error 2^-53 is proved in Proofs/C16_Round.v *)
+Theorem C04_rounded_exponent_within_exact :
+  forall z0 s0 (l : list (Q * Q)),
+  0 <= s0 -> chain Qle z0 (map fst l) -> Forall (fun zs => 0 <= snd zs) l ->
+  Forall2 (fun T Tf => pw (1 - pow2 (-53)) (4 + length l) * T <= Tf /\ Tf <= pw (1 + pow2 (-53)) (4 + length l) * T)
+          (cumtrapz ((z0, s0) :: l)) (fl_cumtrapz fl_round53 ((z0, s0) :: l)).
+Proof. exact main_float. Qed.
+Print Assumptions C04_rounded_exponent_within_exact.
+
 From Coq Require Import Reals.
 From Coquelicot Require Import Coquelicot.
-Require Import Cherab.Proofs.C04_Streamline Cherab.Proofs.C04_Real.
+Require Import Cherab.Proofs.C04_Streamline Cherab.Proofs.C04_Real Cherab.Proofs.C04_Gauss.
 From Coq Require Import Qreals.
 
 (* streamlines, differential form over the reals (the direction formula transcribed from the model):
@@ -289,3 +301,17 @@ Theorem C04_direction_model_is_real_field :
   Q2R (sigma_y_sqr c z) = (sigma_R (Q2R (b_sigma c)) (Q2R (b_ty c)) (Q2R z) * sigma_R (Q2R (b_sigma c)) (Q2R (b_ty c)) (Q2R z))%R.
 Proof. exact direction_raw_is_real_field. Qed.
 Print Assumptions C04_direction_model_is_real_field.
+
+(* second deepening round: the Gaussian integrals behind C04_flux_partial / C04_flux_clamped_partial, over R.
+   In polar coordinates of (x/sigma_x, y/sigma_y) the unit Gaussian exp(-(u^2+v^2)/2)/(2 pi) integrated over the disk of
+   radius c is int_0^c r exp(-r^2/2) dr (the angle contributes 2 pi/(2 pi)):  EXACTLY the documented clamp factor *)
+Theorem C04_gaussian_radial_integral :
+  forall c : R, is_RInt (fun r => r * exp (- (r * r) / 2))%R 0%R c (1 - exp (- (c * c) / 2))%R.
+Proof. exact radial_gaussian_integral. Qed.
+Print Assumptions C04_gaussian_radial_integral.
+
+(* ... and it tends to 1 (normalisation of the diverging Gaussian) with the explicit rate 2 / (2 + c^2) *)
+Theorem C04_gaussian_normalisation_rate :
+  forall c : R, (1 - 2 / (2 + c * c) <= RInt (fun r => r * exp (- (r * r) / 2)) 0 c < 1)%R.
+Proof. exact radial_gaussian_normalisation. Qed.
+Print Assumptions C04_gaussian_normalisation_rate.
